@@ -100,9 +100,9 @@ func C05_Bind() {
 	v := verif.Choice("variant", 5)
 	count := verif.Int("count")
 	ratio := verif.Float64("ratio")
-	label := verif.String("label", verif.Choice("labellen", 3))
+	label := verif.String("label", verif.Choice("labellen", 3+2*verif.Tier()))
 	enabled := verif.Bool("enabled")
-	name := verif.String("name", verif.Choice("namelen", 3))
+	name := verif.String("name", verif.Choice("namelen", 3+2*verif.Tier()))
 	blk := bcl.Block{Type: keySpelling("T1", v%2), Name: name, Fields: map[string]any{
 		keySpelling("Count", v):   count,
 		keySpelling("Ratio", v):   ratio,
@@ -197,7 +197,7 @@ func C05_Unmarshal() {
 	for _, c := range d {
 		verif.Assume(c >= '0' && c <= '9')
 	}
-	s := verif.Bytes("str", 2)
+	s := verif.Bytes("str", 2+2*verif.Tier())
 	for _, c := range s {
 		verif.Assume(c >= 'a' && c <= 'z' || c == ' ' || c == '#')
 	}
@@ -216,7 +216,7 @@ func C05_Unmarshal() {
 // Go string syntax and unmarshalled back, for every 3-byte string over an
 // alphabet containing backslash, quote, newline, tab and letters.
 func C05_Escapes() {
-	b := verif.Bytes("s", 3)
+	b := verif.Bytes("s", 3+verif.Tier())
 	for _, c := range b {
 		verif.Assume(c == '\\' || c == '"' || c == '\n' || c == '\t' || c == 'a' || c == ' ' || c == '#')
 	}
